@@ -80,7 +80,7 @@ def gen_spec(rng, big_ok: bool) -> dict:
     inits = []
     for i in range(n_inits):
         nm = rng.choice([f"t{i}", f"_p{i}", f"layer.{i}.weight", f"val_{i}", f"W{i}"])
-        sub = rng.choice([1, 1, 2, 3]) if rng.random() < 0.25 else 0
+        sub = rng.choice([1, 1, 2, 3, 3, 4]) if rng.random() < 0.3 else 0
         r = rng.random()
         if r < 0.05:
             inits.append({"name": nm, "sub": sub, "kind": "U", "meta": rng.choice(U_META)})
@@ -116,6 +116,13 @@ def gen_spec(rng, big_ok: bool) -> dict:
     if owners and rng.random() < 0.2:  # one tensor object shared by two initializers
         o = rng.choice(owners)
         inits.append({"name": f"alias{len(inits)}", "sub": max(o["sub"], rng.choice([0, 0, 1, 3])), "kind": "A", "of": o["name"]})
+    # the same initializer name owned by two different graphs (sibling branches, or a sub-graph shadowing an outer name)
+    alias_related = {it.get("of") for it in inits if it["kind"] == "A"} | {it["name"] for it in inits if it["kind"] == "A"}
+    free = [it for it in inits if it["name"] not in alias_related]
+    if len(free) >= 2 and rng.random() < 0.3:
+        a, b2 = rng.sample(free, 2)
+        if a["sub"] != b2["sub"]:
+            b2["name"] = a["name"]
     for it in inits:  # where else the initializer's Value appears in its graph (must not matter to the save)
         it["is_input"] = 1 if rng.random() < 0.25 else 0
         it["used"] = 1 if rng.random() < 0.3 else 0
@@ -131,11 +138,30 @@ def gen_spec(rng, big_ok: bool) -> dict:
 U_META = ["full", "noshape", "notype", "none"]
 
 
+def same_name_grid(rng):
+    """Same-named initializers in two different graphs, exactly one of them uninitialized: every ordered pair of distinct
+    graph levels (main, then-branch, nested If, else-branch, Loop body) — i.e. both visiting orders of every pair — with
+    the initialized one below/above the 256-byte threshold.  A guard that merges initializers by name misses these."""
+    for lu in range(5):
+        for lm in range(5):
+            if lu == lm:
+                continue
+            nm = rng.choice(["c", "w", "layer.0.bias"])
+            u = {"name": nm, "sub": lu, "kind": "U", "meta": rng.choice(U_META), "is_input": rng.choice([0, 0, 1]),
+                 "used": rng.choice([0, 1]), "is_output": 0}
+            m = mem_init(rng, nm, lm, rng.choice([8, 300]))
+            m.update(is_input=0, used=rng.choice([0, 1]), is_output=0)
+            extra = mem_init(rng, "other", rng.choice([0, 1, 3, 4]), rng.choice([16, 400]))
+            extra.update(is_input=0, used=0, is_output=0)
+            yield {"name": "m.onnx", "dir": "", "style": "abs", "verbose": 0, "files": [],
+                   "inits": sorted([u, m, extra], key=lambda it: it["sub"])}
+
+
 def guard_grid(rng):
     """Exhaustive grid over everything a weakened guard could look at on an uninitialized initializer: graph level
     (main / then / nested / else) x also-a-graph-input x consumed-by-a-node x graph-output x shape/type metadata,
     each beside 0-2 initialized initializers at random positions and levels."""
-    for sub in (0, 1, 2, 3):
+    for sub in (0, 1, 2, 3, 4):
         for is_input in (0, 1):
             for used in (0, 1):
                 for is_output in (0, 1):
@@ -222,17 +248,17 @@ def oracle(spec: dict, k, r: dict) -> list[tuple[str, str]]:
         data_rel = L.join(spec.get("dir", ""), spec["name"]) + ".data"
         if data_rel not in a["files"]:
             out.append(("roundtrip", f"no sibling data file {data_rel}"))
-        want = sorted(f"{n}:{sub}:{pl}" for n, (sub, pl) in b["bytes"].items() if pl is not None)
+        # per graph: the loaded model has the same initializers (name, bytes) in every graph as the in-memory model
+        want = sorted(f"{g}/{n}:{pl}" for n, g, _sub, pl in b["bytes"] if pl is not None)
         got = r["load"]
         names_missing = has_u
         if got == "none":
             out.append(("roundtrip", f"ir.load of the result failed ({r['load_struct']})"))
         else:
-            got_l = sorted(x for x in got.split(",") if x)
-            unreadable = {n for n, (_s, pl) in b["bytes"].items() if pl is None}
-            got_l = [x for x in got_l if x.split(":")[0] not in unreadable]
+            unreadable = {f"{g}/{n}" for n, g, _s, pl in b["bytes"] if pl is None}
+            got_l = [x for x in r["load_pg"] if x.split(":")[0] not in unreadable]
             if got_l != want or names_missing:
-                out.append(("roundtrip", f"loaded initializers {got_l} != model's {want}"
+                out.append(("roundtrip", f"loaded initializers (per graph) {got_l} != model's {want}"
                             + (" (an uninitialized initializer was dropped)" if names_missing else "")))
             elif r["load_struct"] != r["struct_expected"]:
                 out.append(("roundtrip", "loaded graph structure differs from the in-memory model"))
@@ -288,6 +314,12 @@ def check_spec(drv, spec: dict, deep: int, stats: Counter, ks=None):
         for clause, detail in oracle(spec, k, r):
             props.append((spec, k, detail, clause))
     stats["specs"] += 1
+    nm = [it["name"] for it in spec["inits"]]
+    if len(set(nm)) != len(nm):
+        stats["specs_same_name_in_two_graphs"] += 1
+        dup = {n for n in nm if nm.count(n) > 1}
+        if any(it["kind"] == "U" and it["name"] in dup for it in spec["inits"]):
+            stats["specs_same_name_one_uninitialized"] += 1
     stats["fault_points"] += n + 1
     for it in spec["inits"]:
         key = it["kind"]
@@ -389,6 +421,7 @@ def main(run: core.Run) -> None:
     seen = set()
     specs = [c["spec"] for c in corpus]
     specs += list(guard_grid(run.rng))
+    specs += list(same_name_grid(run.rng))
     specs += [gen_spec(run.rng, False) for _ in range(n_small)]
     specs += [gen_spec(run.rng, True) for _ in range(n_big)]
     for spec in specs:
@@ -489,7 +522,7 @@ def main(run: core.Run) -> None:
         explanation="per case every fault point k in 0..N (N = file-system calls of the fault-free run) plus the fault-free run is "
         "executed on the real code and the model; the cases themselves are corpus + seeded random",
     )
-    need = ["init_A_of_M", "init_A_of_E", "init_U_is_input", "init_U_used", "init_U_is_output", "init_M_is_input", "init_E_is_input", "init_level_1",
+    need = ["specs_same_name_in_two_graphs", "specs_same_name_one_uninitialized", "init_level_4", "init_A_of_M", "init_A_of_E", "init_U_is_input", "init_U_used", "init_U_is_output", "init_M_is_input", "init_E_is_input", "init_level_1",
             "init_level_2", "init_level_3", "init_lazy", "init_U_meta_none", "init_U_sub",
             "init_M_np_mid", "init_M_raw_mid", "init_E_other_mid", "init_E_dest_mid", "init_E_dest_small", "init_U_main",
             "init_zero_size", "init_scalar", "init_M_np_big", "verbose_1", "verbose_2", "style_rel", "dir_sub"]
